@@ -169,7 +169,7 @@ pub fn eval_schedules(h: &[Msg], bound: usize, clamp: Option<usize>) -> (u64, u6
     let exp = expect(h);
     let msgs = history_json(h);
     let env = EnvConfig { chunks: msgs.iter().map(frame).collect(), feeder_task: false, clamp, stdout_cap: None, delay_bounded: false };
-    let _g = watch("C18", || json!({"history": class_string(h), "bound": bound, "clamp": clamp, "mode": "in-process"}).to_string());
+    let _g = watch_limit("C18", sched::MAX_SECONDS_PER_EXPLORATION + 160, || json!({"history": class_string(h), "bound": bound, "clamp": clamp, "mode": "in-process"}).to_string());
     let e = sched::explore(&env, bound);
     let case = |sched: &[usize]| json!({"history": class_string(h), "schedule": sched, "bound": bound, "clamp": clamp});
     if let Some((msg, s)) = &e.abort {
